@@ -1,12 +1,260 @@
 package main
 
-// Mutant battery for the thorough tier (filled in mutants_table.go).
+// Thorough tier: mutant battery. Every mutant is a source edit that still
+// type-checks, applied in memory through packages.Config.Overlay (no scratch
+// copy on disk); the property's rules must fire on it ("caught") or stay silent
+// on it (benign variants). Mutants come from two sources: the table in
+// mutants_table.go (hand-written from DESIGN.md) and the independently written
+// seeded changes kept under /verif/seeded/<property>_<variant>/patch.diff.
+
+import (
+	"fmt"
+	"os"
+	"path/filepath"
+	"sort"
+	"strconv"
+	"strings"
+	"sync"
+)
+
+type mutant struct {
+	Prop   string
+	Name   string
+	File   string // path relative to the repo root
+	Old    string
+	New    string
+	Expect string // "caught" | "silent"
+	Why    string
+	// Patch: unified diff file (seeded changes); when set, File/Old/New are ignored
+	Patch string
+}
 
 type mutantResult struct {
 	summary map[string]interface{}
 	failed  []string
 }
 
+// seeded changes that the checks are known not to detect, with the reason (DESIGN.md section 8)
+var seedExpectedMissed = map[string]string{
+	"C10_b": "replaces sort.Sort by a hand-written insertion loop with an off-by-one bound: the sortedness of tsList is a value-level invariant; a rule demanding the library sort would also reject a correct hand-written insertion",
+}
+
+func applyReplace(content []byte, old, new string) ([]byte, bool) {
+	s := string(content)
+	if strings.Count(s, old) != 1 {
+		return nil, false
+	}
+	return []byte(strings.Replace(s, old, new, 1)), true
+}
+
+// applyUnifiedDiff applies a git unified diff to files read from repo; returns overlay (abs path → content).
+func applyUnifiedDiff(repo string, patch []byte) (map[string][]byte, error) {
+	out := map[string][]byte{}
+	lines := strings.Split(string(patch), "\n")
+	var file string
+	var cur []string
+	flush := func() {
+		if file != "" {
+			out[filepath.Join(repo, file)] = []byte(strings.Join(cur, "\n"))
+		}
+	}
+	i := 0
+	offset := 0
+	for i < len(lines) {
+		l := lines[i]
+		switch {
+		case strings.HasPrefix(l, "+++ "):
+			flush()
+			file = strings.TrimPrefix(strings.TrimPrefix(l, "+++ "), "b/")
+			b, err := os.ReadFile(filepath.Join(repo, file))
+			if err != nil {
+				return nil, err
+			}
+			cur = strings.Split(string(b), "\n")
+			offset = 0
+			i++
+		case strings.HasPrefix(l, "@@ "):
+			// @@ -a,b +c,d @@
+			parts := strings.Fields(l)
+			if len(parts) < 3 {
+				return nil, fmt.Errorf("bad hunk header %q", l)
+			}
+			oldSpec := strings.TrimPrefix(parts[1], "-")
+			start, _ := strconv.Atoi(strings.Split(oldSpec, ",")[0])
+			i++
+			var oldL, newL []string
+			for i < len(lines) && !strings.HasPrefix(lines[i], "@@ ") && !strings.HasPrefix(lines[i], "diff ") && !strings.HasPrefix(lines[i], "--- ") {
+				h := lines[i]
+				switch {
+				case strings.HasPrefix(h, "+"):
+					newL = append(newL, h[1:])
+				case strings.HasPrefix(h, "-"):
+					oldL = append(oldL, h[1:])
+				case strings.HasPrefix(h, " "):
+					oldL = append(oldL, h[1:])
+					newL = append(newL, h[1:])
+				case h == "":
+					if i == len(lines)-1 {
+						break
+					}
+					oldL = append(oldL, "")
+					newL = append(newL, "")
+				case strings.HasPrefix(h, "\\"):
+				}
+				i++
+			}
+			// locate: expected position, else search
+			pos := start - 1 + offset
+			match := func(at int) bool {
+				if at < 0 || at+len(oldL) > len(cur) {
+					return false
+				}
+				for k := range oldL {
+					if cur[at+k] != oldL[k] {
+						return false
+					}
+				}
+				return true
+			}
+			if !match(pos) {
+				found := -1
+				for d := 1; d < 400 && found < 0; d++ {
+					if match(pos - d) {
+						found = pos - d
+					} else if match(pos + d) {
+						found = pos + d
+					}
+				}
+				if found < 0 {
+					return nil, fmt.Errorf("hunk at %s:%d does not apply", file, start)
+				}
+				pos = found
+			}
+			next := append([]string{}, cur[:pos]...)
+			next = append(next, newL...)
+			next = append(next, cur[pos+len(oldL):]...)
+			offset += len(newL) - len(oldL)
+			cur = next
+		default:
+			i++
+		}
+	}
+	flush()
+	if len(out) == 0 {
+		return nil, fmt.Errorf("no file in patch")
+	}
+	return out, nil
+}
+
+func seededMutants(prop string) []mutant {
+	var out []mutant
+	dirs, _ := filepath.Glob(filepath.Join(verifDir(), "seeded", prop+"_*"))
+	sort.Strings(dirs)
+	for _, d := range dirs {
+		name := filepath.Base(d)
+		exp := "caught"
+		why := "independently written regression (see " + name + "/notes.md)"
+		if r, ok := seedExpectedMissed[name]; ok {
+			exp, why = "silent", "known limit: "+r
+		}
+		out = append(out, mutant{Prop: prop, Name: "seed:" + name, Patch: filepath.Join(d, "patch.diff"), Expect: exp, Why: why})
+	}
+	return out
+}
+
 func runMutants(repo string, def *PropDef) mutantResult {
-	return mutantResult{summary: map[string]interface{}{"status": "no mutants registered for this property"}}
+	var ms []mutant
+	for _, m := range mutantTable {
+		if m.Prop == def.ID {
+			ms = append(ms, m)
+		}
+	}
+	ms = append(ms, seededMutants(def.ID)...)
+	known, _ := loadKnown(filepath.Join(verifDir(), "known_findings.txt"))
+	knownKeys := map[string]bool{}
+	for _, k := range known {
+		if k.prop == def.ID {
+			knownKeys[k.key] = true
+		}
+	}
+	type res struct {
+		m       mutant
+		outcome string // caught | silent | skipped | invalid
+		detail  string
+	}
+	results := make([]res, len(ms))
+	var wg sync.WaitGroup
+	sem := make(chan struct{}, 8)
+	for i := range ms {
+		wg.Add(1)
+		go func(i int) {
+			defer wg.Done()
+			sem <- struct{}{}
+			defer func() { <-sem }()
+			m := ms[i]
+			var overlay map[string][]byte
+			if m.Patch != "" {
+				b, err := os.ReadFile(m.Patch)
+				if err != nil {
+					results[i] = res{m, "skipped", err.Error()}
+					return
+				}
+				ov, err := applyUnifiedDiff(repo, b)
+				if err != nil {
+					results[i] = res{m, "skipped", "patch no longer applies to the working tree: " + err.Error()}
+					return
+				}
+				overlay = ov
+			} else {
+				abs := filepath.Join(repo, m.File)
+				b, err := os.ReadFile(abs)
+				if err != nil {
+					results[i] = res{m, "skipped", err.Error()}
+					return
+				}
+				nb, ok := applyReplace(b, m.Old, m.New)
+				if !ok {
+					results[i] = res{m, "skipped", "the construct to mutate is not present (exactly once) in the working tree"}
+					return
+				}
+				overlay = map[string][]byte{abs: nb}
+			}
+			p, err := LoadProg(repo, overlay)
+			if err != nil {
+				results[i] = res{m, "invalid", "mutant does not type-check: " + firstLine(err.Error())}
+				return
+			}
+			c := runProp(p, def, "thorough", "")
+			var hits []string
+			for _, o := range c.Obs {
+				if o.Verdict != "holds" && !knownKeys[o.Key] {
+					hits = append(hits, o.Key)
+				}
+			}
+			if len(hits) > 0 {
+				sort.Strings(hits)
+				if len(hits) > 3 {
+					hits = append(hits[:3], fmt.Sprintf("… %d more", len(hits)-3))
+				}
+				results[i] = res{m, "caught", strings.Join(hits, " | ")}
+			} else {
+				results[i] = res{m, "silent", ""}
+			}
+		}(i)
+	}
+	wg.Wait()
+	var failed []string
+	var rows []map[string]string
+	counts := map[string]int{}
+	for _, r := range results {
+		counts[r.outcome]++
+		ok := r.outcome == r.m.Expect || r.outcome == "skipped" || r.outcome == "invalid"
+		rows = append(rows, map[string]string{"mutant": r.m.Name, "expect": r.m.Expect, "outcome": r.outcome, "detail": r.detail, "why": r.m.Why})
+		if !ok {
+			failed = append(failed, fmt.Sprintf("rule=%s mutant=%s expected=%s got=%s", def.ID, r.m.Name, r.m.Expect, r.outcome))
+		}
+		fmt.Printf("mutant %-52s expect=%-6s outcome=%-7s %s\n", r.m.Name, r.m.Expect, r.outcome, firstLine(r.detail))
+	}
+	return mutantResult{summary: map[string]interface{}{"mutants": len(ms), "outcomes": counts, "results": rows,
+		"method": "each mutant is applied to the working tree in memory (packages.Config.Overlay), the program is re-loaded and the property's rules are re-run; 'caught' = at least one obligation not listed as known finding is violated or undecided"}, failed: failed}
 }
